@@ -42,6 +42,12 @@ type Sched struct {
 	// go:norace function reading harness state only.
 	Ready      func(kind, arg int) bool
 	Deadlocked bool
+	// Abandoned: the running task made no progress for a while - it is blocked
+	// on a lock that a parked task holds (code under test took a mutex around a
+	// yield point; nothing on the unchanged tree does). The schedule is given
+	// up: every task is released and runs freely to its end; the run decides
+	// nothing.
+	Abandoned bool
 	AfterStep  func(step int, task int, site int) bool // false = stop the run (oracle fired)
 	stopped    bool
 	killTimer  *time.Timer
@@ -56,6 +62,7 @@ type Task struct {
 	started  bool
 	LastSite int
 	goid     uint64
+	parked   bool
 	Panic    interface{}
 	waitKind int
 	waitArg  int
@@ -91,8 +98,10 @@ func Yield(site int) {
 	}
 	t.LastSite = site
 	s.inSched = true
+	t.parked = true
 	rawWrite(s.ctlW, 'y')
 	rawRead(t.r)
+	t.parked = false
 }
 
 // curGoid reads the current goroutine's id from the first line of its stack
@@ -124,11 +133,17 @@ func WaitOn(kind, arg int) {
 		if s.Deadlocked {
 			panic("simhook: deadlock: wait condition can never become true")
 		}
+		if s.Abandoned {
+			runtime.Gosched() // free-running tear-down: poll the condition
+			continue
+		}
 		t.waitKind, t.waitArg = kind, arg
 		t.LastSite = -3
 		s.inSched = true
+		t.parked = true
 		rawWrite(s.ctlW, 'w')
 		rawRead(t.r)
+		t.parked = false
 		t.waitKind = 0
 	}
 }
@@ -186,6 +201,64 @@ func rawRead(fd int) byte {
 	}
 }
 
+type pollFd struct {
+	fd      int32
+	events  int16
+	revents int16
+}
+
+// rawReadTimeout waits up to ms milliseconds for a byte.
+//
+//go:norace
+func rawReadTimeout(fd int, ms int) (byte, bool) {
+	p := pollFd{fd: int32(fd), events: 1} // POLLIN
+	for {
+		n, _, e := syscall.Syscall(syscall.SYS_POLL, uintptr(unsafe.Pointer(&p)), 1, uintptr(ms))
+		if e == syscall.EINTR {
+			continue
+		}
+		if e != 0 {
+			fmt.Fprintf(os.Stderr, "simhook: poll failed: %v\n", e)
+			os.Exit(2)
+		}
+		if n == 0 {
+			return 0, false
+		}
+		return rawRead(fd), true
+	}
+}
+
+// abandon gives the schedule up (see Sched.Abandoned): every parked task is
+// released, nothing parks any more, and the scheduler waits for all of them.
+//
+//go:norace
+func (s *Sched) abandon(running int) {
+	s.Abandoned = true
+	s.stopped = true
+	alive := 0
+	for i, t := range s.tasks {
+		if t.done {
+			continue
+		}
+		alive++
+		if i != running && t.parked {
+			rawWrite(t.w, 'g')
+		}
+	}
+	for alive > 0 {
+		b, ok := rawReadTimeout(s.ctlR, 45000)
+		if !ok {
+			fmt.Fprintln(os.Stderr, "simhook: scheduler watchdog: tasks did not finish after the schedule was abandoned")
+			os.Exit(2)
+		}
+		if b == 'd' {
+			alive--
+		}
+	}
+	s.inSched = true
+	s.cur = -1
+}
+
 func NewSched() *Sched {
 	var p [2]int
 	if err := syscall.Pipe(p[:]); err != nil {
@@ -208,7 +281,9 @@ func (s *Sched) Add(fn func(t *Task)) *Task {
 func (s *Sched) taskMain(t *Task) {
 	defer s.wg.Done()
 	t.goid = curGoid()
+	t.parked = true
 	rawRead(t.r)
+	t.parked = false
 	defer s.taskDone(t)
 	t.Fn(t)
 }
@@ -285,7 +360,10 @@ func (s *Sched) Run() {
 		s.quantum = q
 		s.inSched = false
 		rawWrite(t.w, 'g')
-		rawRead(s.ctlR)
+		if _, ok := rawReadTimeout(s.ctlR, 4000); !ok {
+			s.abandon(ti)
+			break
+		}
 		s.inSched = true
 		s.cur = -1
 		s.Steps++
